@@ -167,7 +167,8 @@ QUICK = {
     'C14': {'main': ['svb_unchecked_calculate_new_capacity', 'svb_append_element__pcE', 'svb_append_copies', 'svb_request_capacity', 'svb_emplace_into_reallocation__pE_pcE',
                      'svb_assign_with_copies', 'svb_copy_assign_default__pcsvb', 'svb_append_range__strong_pcE_pcE', 'svb_resize_with__ul', 'svb_insert_copies@realloc', 'sv_reserve'],
             'n0': ['svb_append_element__pcE', 'svb_unchecked_calculate_new_capacity']},
-    'C17': {'main': [],
+    'C17': {'main': ['svb_append_element__pcE', 'svb_emplace_into_current__pE_pcE', 'svb_shrink_to_size', 'svb_move_assign_default__psvb', 'svb_erase_range',
+                     'svb_request_capacity', 'ai_external_range_length__pcE_pcE', 'sv_erase__svcit', 'sv_push_back__pcE', 'svb_ctor__ul_pcE_pcA'],
             'std11': ['svb_append_element__pcE', 'svb_emplace_into_current__pE_pcE', 'svb_shrink_to_size', 'svb_move_assign_default__psvb', 'svb_erase_range',
                       'svb_request_capacity', 'ai_external_range_length__pcE_pcE', 'sv_erase__svcit', 'sv_push_back__pcE', 'svb_ctor__ul_pcE_pcA'],
             'std17': ['svb_append_element__pcE', 'svb_emplace_into_current__pE_pcE', 'svb_shrink_to_size', 'svb_move_assign_default__psvb', 'svb_erase_range',
